@@ -31,3 +31,10 @@ pub fn vx_scan<'a>(m: &'a Map, attr: &str) -> (r: Option<&'a Value>) ensures r =
 /// `m.get(&Key::Str(attr))`: the entry whose key EQUALS Key::Str(attr)
 #[verifier::external_body]
 pub fn vx_hash_get<'a>(m: &'a Map, attr: &str) -> (r: Option<&'a Value>) ensures r == attr_lookup(*m, attr@) { unimplemented!() }
+#[verifier::external_body]
+pub fn vx_starts_with(s: &str, p: &str) -> (r: bool) ensures r == p@.is_prefix_of(s@) { unimplemented!() }
+#[verifier::external_body]
+pub fn vx_ends_with(s: &str, p: &str) -> (r: bool) ensures r == p@.is_suffix_of(s@) { unimplemented!() }
+pub uninterp spec fn eq_ignore_case(a: Seq<char>, b: Seq<char>) -> bool;
+#[verifier::external_body]
+pub fn vx_eq_ignore_case(a: &str, b: &str) -> (r: bool) ensures r == eq_ignore_case(a@, b@) { unimplemented!() }
